@@ -5,7 +5,8 @@ regenerated requirement tables, AARE paths, names) — see `valid_class` for the
 unchanged code is known not to round-trip.  Wire form shared with rules.py."""
 import rules as R
 
-SEG = ['a', 'b', 'foo', 'bar', 'x1', 'lib', 'share', '.cache', 'foo-bar', 'a.b', 'Foo', 'X11', 'v2.0', 'g++', 'libstdc++.so.6', 'k=v']
+SEG = ['a', 'b', 'foo', 'bar', 'x1', 'lib', 'share', '.cache', 'foo-bar', 'a.b', 'Foo', 'X11', 'v2.0', 'g++', 'libstdc++.so.6', 'k=v',
+       'T\u00e9l\u00e9chargements', 'caf\u00e9', '\u0414\u043e\u043a\u0443\u043c\u0435\u043d\u0442\u044b']      # names outside ASCII (several bytes per character)
 VARS = ['@{bin}', '@{lib}', '@{HOME}', '@{run}', '@{PROC}', '@{sys}', '@{user_config_dirs}', '@{etc_ro}', '@{MOUNTS}']
 ROOTS = ['/usr', '/etc', '/var', '/tmp', '/dev', '/opt', '/home', '']
 GLOBS = ['*', '**', '?', '[0-9]', '[^.]', '[a-f]*', '{,.}', '{a,b}', '{a,b{c,d}}', '@{int}', '@{hex}', '{,/}']
@@ -13,7 +14,7 @@ NAMES = ['foo', 'bar', 'child-open', 'gpg', 'foo//bar', 'systemd-logind', 'uncon
          '"@{p_dbus}"', 'a_b', 'xdg-open', ':1.2', 'peer-1']
 COMMENTS = ['', '', '', ' c1', ' see bug 12', ' TODO: x, y', ' a=b (c)', " it's", ' # nested', ' {x}',
             # prose that merely mentions a marker word where the parser does not look for it (shipped profiles have such lines)
-            ' apt-helper gets no new privs so rix it', ' see the no new privs note']
+            ' apt-helper gets no new privs so rix it', ' see the no new privs note', ' \u201cquoted\u201d na\u00efve text']
 WORDS = ['ext4', 'tmpfs', 'proc', 'overlay', 'fuse.foo']
 
 
